@@ -8,6 +8,7 @@ CONSTANTS
   Coords = {"A", "X"}
   OpKinds = {"CreateStream", "DeleteStream", "Pause", "Resume", "SetReadonly", "ShrinkISR", "ExpandISR", "ChangeLeader", "PublishActivity", "CreateGroup", "JoinGroup", "LeaveGroup", "ChangeCoordinator"}
   Variants = {"plain", "custom"}
+  Extras = {"PersistWith"}
   MaxOps = 10
   MaxSnaps = 2
   MaxRestarts = 2
